@@ -54,6 +54,10 @@ type zzC14Spec struct {
 	// Faults, parallel to Sizes: the failure injected into that save ("":
 	// none), see zzC14Fault.
 	Faults []string `json:"faults"`
+	// Serve, parallel to Sizes (filter writer only): how the new list is
+	// offered: "" or "length" (HTTP with Content-Length), "chunked" (HTTP,
+	// size not announced), "file" (a local source file).
+	Serve []string `json:"serve"`
 }
 
 // zzC14Writer is one of the real save paths.
@@ -186,6 +190,14 @@ func zzC14Run(t *testing.T, sp *zzC14Spec, w zzC14Writer) {
 
 		ver++
 		lg.add(map[string]any{"ev": "begin", "id": ver, "want": size})
+		// What the harness itself has to write for this save (a source
+		// file) is written before the environment turns hostile.
+		if p, ok := w.(interface {
+			prepare(t *testing.T, ver, size int)
+		}); ok {
+			p.prepare(t, ver, size)
+		}
+
 		undo, faulted := zzC14Fault(t, fault, dst)
 		zzC14Mark(fmt.Sprintf("begin/%d", ver))
 		err := w.save(t, ver, size)
@@ -433,6 +445,11 @@ func zzC14LoadSpec(t *testing.T) (sp *zzC14Spec) {
 
 // zzC14Filter drives a filter-list refresh.
 type zzC14Filter struct {
+	wantUpdated int
+
+	srvURL string
+	srcDir string
+	idx    int
 	d      *DNSFilter
 	sp     *zzC14Spec
 	resp   atomic.Pointer[zzC14Resp]
@@ -446,6 +463,7 @@ type zzC14Resp struct {
 	body    []byte
 	deliver int
 	cut     string // "" | "length" | "chunked"
+	chunked bool   // complete body, size not announced
 }
 
 // zzC14Body renders a rule list of exactly max(size, minimum) bytes whose
@@ -459,7 +477,13 @@ func zzC14Body(gen, ver, size int) (b []byte) {
 
 	buf := &bytes.Buffer{}
 	fmt.Fprintf(buf, "||zzc14-g%d-v%d.example^\n", gen, ver)
-	const lineLen = 6000
+	// Lists of many MiB get lines close to the parser's 64 KiB limit.
+	lineLen := 6000
+	if size > 4<<20 {
+		lineLen = 48000
+	}
+
+	lab := strings.Repeat("abcdefghijklmnopqrstuvwxyz0123456789-abcdefghijklmnopqrstuv.", lineLen/60+1)
 	for buf.Len() < size {
 		rest := size - buf.Len()
 		n := lineLen
@@ -472,7 +496,6 @@ func zzC14Body(gen, ver, size int) (b []byte) {
 		}
 
 		// "||" + labels + "^\n"
-		lab := strings.Repeat("abcdefghijklmnopqrstuvwxyz0123456789-abcdefghijklmnopqrstuv.", n/60+1)
 		buf.WriteString("||")
 		buf.WriteString(lab[:n-4])
 		buf.WriteString("^\n")
@@ -504,9 +527,24 @@ func (w *zzC14Filter) setup(t *testing.T, sp *zzC14Spec) (dst string, init int) 
 
 			panic(http.ErrAbortHandler)
 		default:
+			if r.chunked {
+				// An early flush makes the server use chunked encoding
+				// whatever the size.
+				if f, ok := rw.(http.Flusher); ok {
+					f.Flush()
+				}
+			} else {
+				rw.Header().Set("Content-Length", fmt.Sprint(len(r.body)))
+			}
+
 			_, _ = rw.Write(r.body)
 		}
 	}))
+	w.srvURL = srv.URL
+	w.srcDir = filepath.Join(sp.Root, "src")
+	if err := os.MkdirAll(w.srcDir, 0o755); err != nil {
+		t.Fatalf("c14: %v", err)
+	}
 	t.Cleanup(srv.Close)
 
 	dataDir := filepath.Join(sp.Root, "work", "data")
@@ -518,6 +556,7 @@ func (w *zzC14Filter) setup(t *testing.T, sp *zzC14Spec) (dst string, init int) 
 		DataDir:          dataDir,
 		FilteringEnabled: true,
 		HTTPClient:       &http.Client{Timeout: 5 * time.Minute},
+		SafeFSPatterns:   []string{filepath.Join(w.srcDir, "*")},
 		Filters: []FilterYAML{{
 			Enabled: true,
 			URL:     srv.URL,
@@ -552,8 +591,8 @@ func (w *zzC14Filter) setup(t *testing.T, sp *zzC14Spec) (dst string, init int) 
 //
 // In the last two cases the document the server intended to send is about
 // twice as long as what arrives, and the cut is in the middle of a line.
-func (w *zzC14Filter) save(t *testing.T, ver, size int) (err error) {
-	wantUpdated := 1
+func (w *zzC14Filter) prepare(t *testing.T, ver, size int) {
+	w.wantUpdated = 1
 	r := &zzC14Resp{body: zzC14Body(w.sp.Gen, ver, size)}
 	if size < 0 {
 		n := -size
@@ -567,12 +606,39 @@ func (w *zzC14Filter) save(t *testing.T, ver, size int) (err error) {
 		}
 
 		w.fails[ver] = len(r.body)
-		wantUpdated = 0
+		w.wantUpdated = 0
 	}
 
+	serve := ""
+	if w.idx < len(w.sp.Serve) {
+		serve = w.sp.Serve[w.idx]
+	}
+
+	w.idx++
+	r.chunked = serve == "chunked"
 	w.bodies[ver] = r.body
 	w.resp.Store(r)
 
+	// The source of the list: the HTTP server or, for "file", a local file
+	// (set in the configuration the way the settings handler stores it).
+	url := w.srvURL
+	if serve == "file" && size >= 0 {
+		url = filepath.Join(w.srcDir, fmt.Sprintf("v%d.txt", ver))
+		if err := os.WriteFile(url, r.body, 0o644); err != nil {
+			t.Fatalf("c14: %v", err)
+		}
+	}
+
+	func() {
+		w.d.conf.filtersMu.Lock()
+		defer w.d.conf.filtersMu.Unlock()
+
+		w.d.conf.Filters[0].URL = url
+	}()
+}
+
+func (w *zzC14Filter) save(t *testing.T, ver, size int) (err error) {
+	wantUpdated := w.wantUpdated
 	rec := httptest.NewRecorder()
 	req := httptest.NewRequest(http.MethodPost, "/control/filtering/refresh", strings.NewReader(`{"whitelist":false}`))
 	req.Header.Set("Content-Type", "application/json")
